@@ -1115,23 +1115,27 @@ def install_yield_attr(cls, name):
 # --------------------------------------------------------------------------- DFS driver
 
 
-def dfs_explore(run_one, bound, *, max_execs=None, prefix0=(), on_result=None):
+def dfs_explore(run_one, bound, *, max_execs=None, prefix0=(), on_result=None, stack0=None, leftover=None):
     """Stateless bounded-preemption DFS.
 
     run_one(prefix) -> (record, result): executes the program under PrefixStrategy(prefix) and
     returns the strategy's record.  Enumerates every schedule with at most `bound` preemptions
     (data choices and forced switches are free).  Returns the number of executions.
+    A stack entry P stands for the subtree "follow P, branch only at positions >= len(P)"; when max_execs is
+    reached the unexplored entries are appended to `leftover` (they are independent jobs).
     """
-    stack = [list(prefix0)]
+    stack = [list(p) for p in stack0] if stack0 is not None else [list(prefix0)]
     n = 0
     while stack:
+        if max_execs is not None and n >= max_execs:
+            if leftover is not None:
+                leftover.extend(stack)
+            break
         prefix = stack.pop()
         record, result = run_one(prefix)
         n += 1
         if on_result is not None:
             on_result(prefix, record, result)
-        if max_execs is not None and n >= max_execs:
-            break
         # preemptions used before each position
         pre = 0
         pres = []
@@ -1177,3 +1181,41 @@ def frontier_prefixes(run_one, bound, depth):
         if not level:
             break
     return leaves + level
+
+
+# --------------------------------------------------------------------------- line-level yield points
+
+
+_MON_TOOL = 4
+_mon_on = False
+_mon_codes = set()
+
+
+def _on_line(code, lineno):
+    s = _CUR
+    if s is None or s.aborting:
+        return
+    t = s.cur
+    if t is None or _rt.current_thread() is not t.real:
+        return
+    s.yield_(f"line:{code.co_name}:{lineno}")
+
+
+def enable_line_yields(funcs):
+    """Make every source line of the given functions a yield point (sys.monitoring LINE events, local to their
+    code objects; DESIGN §5.2).  Used for code that touches shared state without a lock."""
+    global _mon_on
+    mon = sys.monitoring
+    if not _mon_on:
+        try:
+            mon.use_tool_id(_MON_TOOL, "detsched")
+        except ValueError:
+            pass
+        mon.register_callback(_MON_TOOL, mon.events.LINE, _on_line)
+        _mon_on = True
+    for f in funcs:
+        code = getattr(f, "__code__", f)
+        if code in _mon_codes:
+            continue
+        _mon_codes.add(code)
+        mon.set_local_events(_MON_TOOL, code, mon.events.LINE)
